@@ -314,7 +314,7 @@ impl<'a> Gen<'a> {
                         let alt = self.plain_words(1, 2);
                         let name = self.words.next(self.rng, false);
                         Inl::Image {
-                            dest: format!("img/{}.png", name),
+                            dest: if self.rng.chance(1, 8) { format!("img/my {}.png", name) } else { format!("img/{}.png", name) },
                             alt,
                         }
                     }
@@ -801,7 +801,7 @@ fn render_inlines(v: &[Inl], st: &mut Style, defs: &mut Vec<(String, String)>) -
                 }
             }
             Inl::Image { dest, alt } => {
-                out.push_str(&format!("![{}]({})", render_inlines(alt, st, defs), dest));
+                out.push_str(&format!("![{}]({})", render_inlines(alt, st, defs), if dest.contains(' ') { format!("<{}>", dest) } else { dest.clone() }));
             }
             Inl::Html(h) => out.push_str(h),
             Inl::Break(hard) => {
